@@ -256,17 +256,35 @@ def fold_index(t, ival, is_i, zero_syms=()):
   raise guards.Inconclusive(sym.show(t)[:80])
 
 
+def phi_arms(v, cond=()):
+  """[(path condition texts, value)] for a value that is a tree of configuration joins."""
+  if v.k == 'phi':
+    return phi_arms(v.a[1], cond + (sym.show(v.a[0], maxdepth=4),)) + phi_arms(v.a[2], cond + ('not ' + sym.show(v.a[0], maxdepth=4),))
+  return [(cond, v)]
+
+
 def basis_roles(chk, site, v, loc, nslots=16):
-  """slot → ('const',) | ('zero',) | ('cos', k) | ('sin', k) from the builder's stores."""
+  """slot → ('const',) | ('zero',) | ('cos', k) | ('sin', k) | ('other', text) from the builder's stores.
+
+  A column that is written again from its own previous content (rescaled, shifted …) or from anything that is not
+  the constant column, zero, Re(dft) or −Im(dft) gets the role 'other' and is reported by the caller."""
   base, stores = strip_stores(v)
   roles = {}
   facts = []
   for idx, val, op, sloc in stores:
-    if not (op == '=' and idx.k == 'tuple' and len(idx.a) == 2 and full_slice(idx.a[0])):
+    if not (idx.k == 'tuple' and len(idx.a) == 2 and full_slice(idx.a[0])):
       raise AnalysisError(f'{site}: unrecognised basis assignment {sym.show(idx)}')
     col = idx.a[1]
+    if col.k == 'const' and isinstance(col.a[0], int):
+      slots = [col.a[0] % nslots]
+    elif col.k == 'slice' and col.a[0].k == 'const' and col.a[1] == sym.NONE and col.a[2].k == 'const':
+      slots = list(range(col.a[0].a[0], nslots, col.a[2].a[0]))
+    else:
+      raise AnalysisError(f'{site}: unrecognised column index {sym.show(col)}')
     kind = None
-    if val == sym.const(0):
+    if op != '=' or sym.contains(val, lambda t: t.k == 'store'):
+      kind = 'other'
+    elif val == sym.const(0):
       kind = 'zero'
     elif match.is_ext_call(val, 'real'):
       kind = 'cos'
@@ -279,14 +297,11 @@ def basis_roles(chk, site, v, loc, nslots=16):
     else:
       kind = 'const'
       facts.append(('const', val))
-    if col.k == 'const' and isinstance(col.a[0], int):
-      slots = [col.a[0]]
-    elif col.k == 'slice' and col.a[0].k == 'const' and col.a[1] == sym.NONE and col.a[2].k == 'const':
-      slots = list(range(col.a[0].a[0], nslots, col.a[2].a[0]))
-    else:
-      raise AnalysisError(f'{site}: unrecognised column index {sym.show(col)}')
     for n, s_ in enumerate(slots):
-      roles[s_] = (kind, n + 1) if kind in ('cos', 'sin', 'minus-sin') else (kind,)
+      if kind == 'other':
+        roles[s_] = ('other', f'{sym.show(col)} {op} {sym.show(val, maxdepth=3)[:80]}')
+      else:
+        roles[s_] = (kind, n + 1) if kind in ('cos', 'sin', 'minus-sin') else (kind,)
   return roles, facts
 
 
@@ -297,8 +312,16 @@ def rule_fourier(chk, prog):
     fb = prog.func(f'{FO}.{builder}')
     vb, ctxb, _ = ev.run(fb)
     site, loc = f'{FO}.{builder}', (fb.file, fb.lineno)
-    roles, facts = basis_roles(chk, site, vb, loc)
     n = 16
+    arms = phi_arms(vb)
+    per_arm = [(cond, basis_roles(chk, site, arm, loc)) for cond, arm in arms]
+    roles, facts = per_arm[-1][1]
+    for cond, (r_, f_) in per_arm:
+      other = {i: r for i, r in r_.items() if r[0] == 'other'}
+      where_ = f' [when {" and ".join(cond)}]' if cond else ''
+      chk.check(not other and r_ == roles, rule, f'{site}: every column is the constant, zero, Re(dft) or −Im(dft) column of its wavenumber, in every configuration',
+                f'{len(arms)} configuration(s)' if not other and r_ == roles else f'{where_} {other or "layout differs between configurations"}', loc,
+                'one layout: const | 0 | cos k | sin k', str(other)[:200])
     missing = [i for i in range(n) if i not in roles]
     chk.check(not missing, rule, f'{site}: every column of the basis is assigned', f'unassigned slots {missing}', loc)
     chk.check(not any(r[0] == 'minus-sin' for r in roles.values()), rule, f'{site}: sin columns are −Im of the DFT matrix (scipy uses e^(−2πijk/n))',
@@ -352,6 +375,8 @@ def rule_fourier(chk, prog):
         SEL = bool(fold_index(sel, i, is_i, zero_syms=('frequency_offset',)))
         sign, off = na if SEL else nb_
         role = roles.get(i)
+        if role is None or role[0] == 'other':
+          continue  # reported above
         if role[0] in ('const', 'zero'):
           if J != 0:
             bad.append((i, role, f'frequency {J} ≠ 0'))
@@ -562,6 +587,8 @@ def rule_uv(chk, prog):
 
 
 def run(chk, prog, tier):
+  from rules import c01 as _c01
+  _c01.rule_shared_state(chk, prog, rule='C02.7-cached-arrays-never-updated-in-place')
   rule_recurrence(chk, prog)
   rule_eigenvalues(chk, prog)
   rule_radius(chk, prog)
